@@ -597,6 +597,14 @@ def gen_z_cases(rng, exe, reps, cases):
                     for k in range(n):
                         if k in reads:
                             vals[k] = a if idx[k] == idx[2] else b
+                if op in ("gcd", "lcm", "gcd5", "gcd4") and rep % 2 == 1:
+                    # operands with a common factor and different sizes: the result depends on both
+                    g = rng.choice([2, 6, 2 ** 64 + 13, 3 * 5 * 7 * 11, -(2 ** 33)])
+                    cv = {}
+                    for k in sorted(reads):
+                        if idx[k] not in cv:
+                            cv[idx[k]] = g * rng.choice([1, 5, 35, 2 ** 70 + 3, -77, 9]) * (1 + len(cv))
+                        vals[k] = cv[idx[k]]
                 c = Case(exe, "Z", "-", op, n, dests, reads, idx, vals, [x] if sk else [], "Integer::" + op, Z_NAMES.get(op))
                 if not z_valid(op, tag, idx, c.vals, x) or not z_valid(op, tag, idx, c.alias_vals(), x):
                     continue
@@ -938,6 +946,13 @@ def gen_ru_cases(rng, exes, quick, cases):
                     elif sk:
                         x = scalar(rng, sk)
                     vals = class_values(rng, n, dests, reads, idx, lambda k: ru_value(rng, K, small=(tag == "exp" and k == 2)), lambda k: ru_value(rng, K))
+                    if op == "gcd" and rep % 2 == 1:
+                        g = rng.choice([2, 6, 3 * 5 * 7 * 11, 2 ** 31 + 11])
+                        cv = {}
+                        for k in sorted(reads):
+                            if idx[k] not in cv:
+                                cv[idx[k]] = g * rng.choice([1, 5, 35, 77, 9, 2 ** 20 + 7]) * (1 + len(cv))
+                            vals[k] = cv[idx[k]]
                     c = Case("recint", "RU", K, op, n, dests, reads, idx, vals, [x] if sk else [], "RecInt::" + op + "(ruint<K>)", RU_NAMES.get(op))
                     if not ru_valid(op, tag, c.vals, W) or not ru_valid(op, tag, c.alias_vals(), W):
                         continue
@@ -966,6 +981,10 @@ POLY_OPS = {
     "axpy.s": (3, [0], [1, 2], "coef", ""), "axmy.s": (3, [0], [1, 2], "coef", ""),
     "axpyin.s": (2, [0], [0, 1], "coef", ""), "maxpyin.s": (2, [0], [0, 1], "coef", ""), "axmyin.s": (2, [0], [0, 1], "coef", ""),
     "maxpy.s": (3, [0], [1, 2], "coef", ""), "mod.s": (2, [0], [1], "coefnz", ""),
+    "add.sl": (2, [0], [1], "coef", ""), "sub.sl": (2, [0], [1], "coef", ""), "mul.sl": (2, [0], [1], "coef", ""),
+    "div.sl": (2, [0], [1], "coef", "nz1"), "mod.sl": (2, [0], [1], "coef", "nz1"),
+    "addin.s": (1, [0], [0], "coef", ""), "subin.s": (1, [0], [0], "coef", ""), "mulin.s": (1, [0], [0], "coef", ""),
+    "divin.s": (1, [0], [0], "coefnz", ""), "modin.s": (1, [0], [0], "coefnz", ""),
     "karamul": (3, [0], [1, 2], None, ""), "midmul": (3, [0], [1, 2], None, "mid"), "stdmidmul": (3, [0], [1, 2], None, "mid"),
     "karamidmul": (3, [0], [1, 2], None, "mid"), "mul.trunc": (3, [0], [1, 2], "trunc", ""),
     "divmodin": (3, [0, 1], [1, 2], None, "nz2"), "pdivmod": (4, [0, 1], [2, 3], None, "nz3"), "pmod": (3, [0], [1, 2], None, "nz2"),
@@ -982,6 +1001,46 @@ def poly_value(rng, p, maxdeg, nz=False):
         return "z"
     cs = [rng.choice([0, 1, p - 1, rng.range(0, p - 1)]) for _ in range(d)] + [rng.range(1, p - 1)]
     return ",".join(str(c) for c in cs)
+
+
+def pmul(a, b, p):
+    if not a or not b:
+        return []
+    r = [0] * (len(a) + len(b) - 1)
+    for i, x in enumerate(a):
+        if x:
+            for j, y in enumerate(b):
+                r[i + j] = (r[i + j] + x * y) % p
+    return r
+
+
+def pstr(cs):
+    while cs and cs[-1] == 0:
+        cs = cs[:-1]
+    return ",".join(str(c) for c in cs) if cs else "z"
+
+
+def poly_shaped(rng, p, nclasses, shape):
+    """operand values (one per class, in order of first read position) for which the result of a polynomial operation
+    depends on every operand: a common factor, own factors, degrees strictly increasing (shape 0) or decreasing (shape 1)
+    along the positions; shape 3: zero / constant / equal-valued operands"""
+    def linprod(k):
+        r = [1]
+        for _ in range(k):
+            r = pmul(r, [(-rng.range(0, p - 1)) % p, 1], p)
+        return r
+    if shape == 3:
+        base = pmul(linprod(rng.range(1, 3)), [rng.range(1, p - 1)], p)
+        out = []
+        for i in range(nclasses):
+            k = rng.below(4)
+            out.append([] if k == 0 else [rng.range(1, p - 1)] if k == 1 else base if k == 2 else pmul(base, linprod(1), p))
+        return [pstr(v) for v in out]
+    common = linprod(rng.range(1, 2))
+    degs = [1 + 2 * i + rng.below(2) for i in range(nclasses)]
+    if shape == 1:
+        degs.reverse()
+    return [pstr(pmul(pmul(common, linprod(d), p), [rng.range(1, p - 1)], p)) for d in degs]
 
 
 def gen_field_cases(rng, exes, quick, cases):
@@ -1017,7 +1076,7 @@ def gen_field_cases(rng, exes, quick, cases):
     for p in ([7, 101] if quick else [2, 3, 7, 101, 65521]):
         for op, (n, dests, reads, sk, tag) in sorted(POLY_OPS.items()):
             for idx in partitions(n, dests):
-                for rep in range(reps):
+                for rep in range(2 * reps):
                     x = None
                     if sk == "pexp":
                         x = rng.choice([0, 1, 2, 3, 5])
@@ -1028,10 +1087,24 @@ def gen_field_cases(rng, exes, quick, cases):
                     big = rng.chance(1, 6) and op in ("mul", "mulin", "sqr", "axpy", "div", "mod", "divmod")
                     md = 40 if big else 6
                     vals = class_values(rng, n, dests, reads, idx, lambda j: poly_value(rng, p, md, nz=(tag == "nzall")), lambda j: poly_value(rng, p, 6))
+                    if rep % 4 != 2 and p > 2:
+                        # shaped operands (see poly_shaped): classes in order of their first read position
+                        order = []
+                        for j in sorted(reads):
+                            if idx[j] not in order:
+                                order.append(idx[j])
+                        sv = poly_shaped(rng, p, len(order), rep % 4)
+                        for j in range(n):
+                            if j in reads:
+                                vals[j] = sv[order.index(idx[j])]
                     def setpos(k, v):
                         for j in range(n):
                             if j in reads and idx[j] == idx[k]:
                                 vals[j] = v
+                    if tag == "nzall":
+                        for j in sorted(reads):
+                            if vals[j] == "z":
+                                setpos(j, str(rng.range(1, p - 1)))
                     if tag == "mid":
                         # middle products: size(P) = 2 size(Q) - 1 (the Karatsuba form requires it); a shared object: constants
                         if idx[1] == idx[2]:
@@ -1040,7 +1113,7 @@ def gen_field_cases(rng, exes, quick, cases):
                             dq = rng.choice([0, 1, 2, 3, 5])
                             setpos(2, ",".join(str(rng.range(0, p - 1)) for _ in range(dq)) + ("," if dq else "") + str(rng.range(1, p - 1)))
                             setpos(1, ",".join(str(rng.range(0, p - 1)) for _ in range(2 * dq)) + ("," if dq else "") + str(rng.range(1, p - 1)))
-                    if op in ("div", "mod", "divmod", "divin", "modin", "divmodin", "pdivmod", "pmod") and rep % 2 == 1:
+                    if op in ("div", "mod", "divmod", "divin", "modin", "divmodin", "pdivmod", "pmod") and rep % 4 == 2:
                         # constant divisor: the quotient loop divides by B[0] coefficient by coefficient
                         dpos = {"div": 2, "mod": 2, "divmod": 3, "divin": 1, "modin": 1, "divmodin": 2, "pdivmod": 3, "pmod": 2}[op]
                         setpos(dpos, str(rng.range(1, p - 1)))
